@@ -41,6 +41,12 @@ ASSUMPTIONS = [
     "workflows rejected when the package is loaded (ExperimentInvalidConfigurationError) are skipped and counted "
     "(label rejected-at-load); replication of components with overlapping names is C03's subject",
     "copyout references never appear in arguments (the repository's tokeniser reads 'x:copyout' as 'x:copy'+'out')",
+    "replicated workflows use names that do not contain one another; a case whose instantiated graph does not carry "
+    "exactly the references of the abstract workflow is skipped and counted (label graph-differs-from-model)",
+    "'same container image' = equal image string, whichever backend carries it (kubernetes image / lsf dockerImage); "
+    "lsf without dockerImage counts as no image; all other backend / resource options are hash-irrelevant",
+    "the name of a referenced file is hash-irrelevant for the strong hash (the statement replaces the reference by "
+    "the hash of the content); relative vs absolute spelling of a reference is hash-irrelevant",
 ]
 TIERS = {"quick": {"shards": 8, "budget": 120}, "thorough": {"shards": 16, "budget": 1500}}
 
